@@ -316,6 +316,11 @@ def shapes(tier="quick", seed=0):
                          {"200": {"$ref": "#/components/responses/ItemResponse"}, "202": {"$ref": "#/components/responses/ItemResponse"}, "404": {"$ref": "#/components/responses/Missing"}})])
     SCR["components"] = {"schemas": copy.deepcopy(BASE_SCHEMAS), "responses": {"ItemResponse": resp_json(ref("Pet")), "Missing": resp_json(ref("Err"))}}
     add("shared-component-responses", SCR)
+    # a tag whose ONLY operation answers with several content types (whatever the handler of that shape needs must be imported by that module itself)
+    LM = doc("LM", [op("/lm", "get", "getLm", ["lonely"], responses={"200": {"description": "ok", "content": {
+        "application/json": {"schema": ref("Pet")}, "application/vnd.acme.err+json": {"schema": ref("Err")}}}}),
+                    op("/other", "get", "getOther", ["other"], responses={"200": resp_json(ref("Pet"))})], BASE_SCHEMAS)
+    add("lonely-multi-content-response", LM)
     # `deprecated: true` on an operation, a parameter and a property
     DP = doc("DP", [op("/old", "get", "getOld", ["dp"], [dict(param("q", "query"), deprecated=True)], responses={"200": resp_json(ref("Old"))}),
                     op("/new", "get", "getNew", ["dp"], responses={"200": resp_json(ref("Old"))})],
